@@ -6,13 +6,20 @@ R14.2 error discipline: the listed load faults leave through `raise CollisionLoa
 R14.3 basis change is an inverse-transpose on the polynomial axes, cardinal on the momentum axes
 R14.4 axis-label flow of the interpolation: a reshape may only split / merge adjacent labels
 R14.5 interpolation works on a deep copy, in the Chebyshev basis, and converts back at the end
+
+Recognition is spelling-independent: the functions are read through the forward substitution of c12 (`Flat`: every local, also
+inside one loop iteration, is replaced by its definition; simple extracted helpers are looked through), variables are identified
+by their ROLE (loop variables of the enumerate(particles) loops, the `with h5py.File(...) as f` handle, the values read from the
+file's metadata, the parameters of the public methods) and arguments are bound by keyword or position.
 """
 from __future__ import annotations
 
 import ast
 
-from ..core import AnchorMissing, Check, Undecided, calls_in, dotted, kwarg, own_nodes, src, slice_src, walk_guarded
+from ..core import AnchorMissing, Check, Undecided, calls_in, dotted, kwarg, own_nodes, src, walk_guarded
 from ..flow import CFG
+from ..nf import NF, Ctx, eqx, match, nf, same
+from .c12 import Flat
 
 LEVEL = "other"
 CA = "collisionArray:CollisionArray"
@@ -22,58 +29,166 @@ def n(x) -> str:
     return " ".join(src(x).split())
 
 
+def _short(call) -> str:
+    return (dotted(call.func) or "").split(".")[-1] if isinstance(call, ast.Call) else ""
+
+
+def _params(fi) -> list:
+    return [p for p in fi.params() if p not in ("self", "cls")]
+
+
+def _str_parts(e: ast.AST) -> list:
+    """a string expression as a list of literal pieces and ('expr', normal form) pieces: f-strings and `+` chains coincide"""
+    out: list = []
+
+    def add(x):
+        if isinstance(x, str) and out and isinstance(out[-1], str):
+            out[-1] += x
+        elif x != "":
+            out.append(x)
+
+    def walk(x):
+        if isinstance(x, ast.JoinedStr):
+            for v in x.values:
+                walk(v)
+        elif isinstance(x, ast.FormattedValue):
+            if x.conversion not in (-1, 115) or x.format_spec is not None:
+                add(("fmt", nf(x.value), x.conversion, n(x.format_spec) if x.format_spec is not None else ""))
+            elif isinstance(x.value, ast.JoinedStr) or (isinstance(x.value, ast.Constant) and isinstance(x.value.value, str)):
+                walk(x.value)
+            else:
+                add(("expr", nf(x.value)))
+        elif isinstance(x, ast.Constant) and isinstance(x.value, str):
+            add(x.value)
+        elif isinstance(x, ast.BinOp) and isinstance(x.op, ast.Add):
+            walk(x.left)
+            walk(x.right)
+        elif isinstance(x, ast.Call) and eqx(x.func, "str") and len(x.args) == 1 and not x.keywords:
+            add(("expr", nf(x.args[0])))
+        else:
+            add(("expr", nf(x)))
+    walk(e)
+    return out
+
+
+def _whole(sl: ast.AST) -> bool:
+    """x[:] / x[...] / x[()]: all of the dataset"""
+    return (isinstance(sl, ast.Slice) and sl.lower is None and sl.upper is None and sl.step is None) or (isinstance(sl, ast.Constant) and sl.value is Ellipsis) \
+        or (isinstance(sl, ast.Tuple) and not sl.elts)
+
+
+def _is_load_error(r: ast.Raise) -> bool:
+    e = r.exc
+    if isinstance(e, ast.Call):
+        e = e.func
+    return e is not None and (dotted(e) or "").split(".")[-1] == "CollisionLoadError"
+
+
+def _facts(t: ast.AST, pol: bool):
+    """atomic (test, polarity) facts implied by taking the branch (t, pol): conjuncts of a true `and`, disjuncts of a false `or`"""
+    while isinstance(t, ast.UnaryOp) and isinstance(t.op, ast.Not):
+        t, pol = t.operand, not pol
+    if isinstance(t, ast.BoolOp) and ((pol and isinstance(t.op, ast.And)) or (not pol and isinstance(t.op, ast.Or))):
+        for v in t.values:
+            yield from _facts(v, pol)
+    else:
+        yield t, pol
+
+
+def _true_when(t: ast.AST, pol: bool, pos: list, neg: list) -> bool:
+    """the branch (t, pol) is taken exactly when one of the conditions `pos` holds (`neg` are spellings of the negation)"""
+    while isinstance(t, ast.UnaryOp) and isinstance(t.op, ast.Not):
+        t, pol = t.operand, not pol
+    return any(eqx(t, p) for p in (pos if pol else neg))
+
+
 def r14_1(chk: Check) -> None:
     S = chk.src
     fi = S.func(f"{CA}.newFromDirectory")
     chk.touch(fi.name)
+    prm = _params(fi)
+    if len(prm) < 4:
+        raise AnchorMissing("newFromDirectory: expected the parameters (directoryPath, grid, basisType, particles, ...)")
+    P_DIR, P_GRID, P_BASIS, P_PARTICLES = prm[:4]
+    F = Flat(S, fi)
     # loop variables
-    loops = [st for st in own_nodes(fi.node) if isinstance(st, ast.For) and isinstance(st.iter, ast.Call)
-             and n(st.iter.func) == "enumerate" and n(st.iter.args[0]) == "particles"]
+    loops = [st for st in own_nodes(fi.node) if isinstance(st, ast.For) and eqx(F.iters.get(id(st)), f"enumerate({P_PARTICLES})")
+             and isinstance(st.target, ast.Tuple) and len(st.target.elts) == 2 and all(isinstance(e, ast.Name) for e in st.target.elts)]
     if len(loops) != 2:
         raise AnchorMissing("newFromDirectory: the two enumerate(particles) loops were not found")
     outer, inner = sorted(loops, key=lambda l: l.lineno)
     chk.ob("R14.1", fi.where(outer), "the loader visits every ordered particle pair (two nested loops over `particles`)",
            any(x is inner for x in ast.walk(outer)), key="nested-loops")
-    (i1, p1), (i2, p2) = [[n(e) for e in l.target.elts] for l in (outer, inner)]
-    fname = dset = dest = None
-    for st in own_nodes(fi.node):
-        if isinstance(st, ast.Assign):
-            t = n(st.targets[0])
-            v = st.value
-            if isinstance(v, ast.BinOp) and isinstance(v.op, ast.Div) and any(isinstance(x, ast.JoinedStr) for x in ast.walk(v)):
-                js = [x for x in ast.walk(v) if isinstance(x, ast.JoinedStr)][0]
-                fname = [n(x.value) if isinstance(x, ast.FormattedValue) else x.value for x in js.values]
-            if isinstance(v, ast.BinOp) and isinstance(v.op, ast.Add) and ".name" in n(v) and not any(isinstance(x, ast.JoinedStr) for x in ast.walk(v)):
-                dset = n(v)
-            if isinstance(st.targets[0], ast.Subscript) and n(st.targets[0].value) == "collisionFileArray":
-                dest = (slice_src(st.targets[0].slice), n(v))
-    ok = fname == ["collisions_", f"{p1}.name", "_", f"{p2}.name", ".hdf5"]
+    (i1, p1), (i2, p2) = [[e.id for e in l.target.elts] for l in (outer, inner)]
+    # the file that is opened: `with h5py.File(<path>, "r") as <handle>`
+    opened = [(st, v) for st, v in F.events if isinstance(st, ast.With) and isinstance(v, ast.Call) and (dotted(v.func) or "").endswith("File")]
+    fname = None
+    handle = None
+    if len(opened) == 1:
+        st, v = opened[0]
+        path = v.args[0] if v.args else kwarg(v, "name")
+        while isinstance(path, ast.Call) and (eqx(path.func, "str") or _short(path) in ("fspath", "Path")) and len(path.args) == 1:
+            path = path.args[0]
+        if isinstance(path, ast.BinOp) and isinstance(path.op, ast.Div) and eqx(path.left, P_DIR):
+            fname = _str_parts(path.right)
+        elif isinstance(path, ast.Call) and _short(path) == "joinpath" and isinstance(path.func, ast.Attribute) and eqx(path.func.value, P_DIR) and len(path.args) == 1:
+            fname = _str_parts(path.args[0])
+        hv = [it.optional_vars for it in st.items if it.optional_vars is not None]
+        handle = hv[0].id if len(hv) == 1 and isinstance(hv[0], ast.Name) else None
+    if handle is None:
+        raise AnchorMissing("newFromDirectory: `with h5py.File(...) as <handle>` not found")
+    ok = fname == ["collisions_", ("expr", f"{p1}.name"), "_", ("expr", f"{p2}.name"), ".hdf5"]
     chk.ob("R14.1", fi.where(), f"file name is collisions_<{p1}.name>_<{p2}.name>.hdf5 (outer loop particle first)", ok, str(fname), key="filename")
-    ok = dset is not None and dset.replace('"', "'") == f"{p1}.name + ', ' + {p2}.name"
+    # what is stored where: <array>[i1, :, :, i2, :, :] = <dataset read from the handle>
+    stores = [v for st, v in F.events if isinstance(v, ast.Assign) and isinstance(v.targets[0], ast.Subscript) and isinstance(v.targets[0].value, ast.Name)
+              and any(isinstance(x, ast.Name) and x.id == handle for x in ast.walk(v.value))]
+    dset, dest, reads = None, None, []
+    if len(stores) == 1:
+        dest = stores[0].targets[0]
+        reads = [x for x in ast.walk(stores[0].value) if isinstance(x, ast.Subscript) and eqx(x.value, handle)]
+        if len(reads) == 1:
+            dset = _str_parts(reads[0].slice)
+    ok = dset == [("expr", f"{p1}.name"), ", ", ("expr", f"{p2}.name")]
     chk.ob("R14.1", fi.where(), f"dataset name is '<{p1}.name>, <{p2}.name>'", ok, str(dset), key="dataset")
-    ok = dest is not None and dest[0] == f"{i1}, :, :, {i2}, :, :"
-    chk.ob("R14.1", fi.where(), f"the pair's data is stored at [{i1}, :, :, {i2}, :, :] (outer index first)", ok, str(dest), key="dest-slice")
-    # dataset read with the dataset name
-    rd = [x for x in own_nodes(fi.node) if isinstance(x, ast.Subscript) and n(x.value) == "file" and n(x.slice) == "datasetName"]
-    chk.ob("R14.1", fi.where(), "the dataset read from the file is the one named after the pair and it is what gets stored",
-           bool(rd) and dest is not None and dest[1] == "collisionDataset", key="dataset-read")
+    ok = False
+    if dest is not None:
+        idx = list(dest.slice.elts) if isinstance(dest.slice, ast.Tuple) else [dest.slice]
+        while idx and _whole(idx[-1]) and isinstance(idx[-1], ast.Slice):     # trailing `:` are implied
+            idx.pop()
+        ok = len(idx) == 4 and eqx(idx[0], i1) and eqx(idx[3], i2) and all(isinstance(x, ast.Slice) and _whole(x) for x in idx[1:3])
+    chk.ob("R14.1", fi.where(), f"the pair's data is stored at [{i1}, :, :, {i2}, :, :] (outer index first)", ok, n(dest) if dest is not None else "", key="dest-slice")
+    # dataset read with the dataset name: the stored value is that dataset (all of it), nothing else
+    ok = False
+    if len(stores) == 1 and len(reads) == 1:
+        v = stores[0].value
+        while isinstance(v, ast.Call) and (dotted(v.func) or "") in ("np.array", "np.asarray", "numpy.array", "numpy.asarray") and len(v.args) == 1:
+            v = v.args[0]
+        ok = (isinstance(v, ast.Subscript) and v.value is reads[0] and _whole(v.slice)) or v is reads[0]
+    chk.ob("R14.1", fi.where(), "the dataset read from the file is the one named after the pair and it is what gets stored", ok, key="dataset-read")
     # solver side
     fl = S.func("boltzmann:BoltzmannSolver.loadCollisions")
     chk.touch(fl.name)
-    stores = [st for st in own_nodes(fl.node) if isinstance(st, (ast.Assign, ast.AugAssign)) and
-              any(n(t) == "self.collisionArray" for t in (st.targets if isinstance(st, ast.Assign) else [st.target]))]
-    ok = len(stores) == 1 and isinstance(stores[0].value, ast.Call) and n(stores[0].value.func) == "CollisionArray.newFromDirectory"
+    cl = Ctx(S, fl)
+    pl = _params(fl)
+    stores = [st for st in own_nodes(fl.node) if isinstance(st, (ast.Assign, ast.AugAssign, ast.AnnAssign)) and
+              any(eqx(t, "self.collisionArray") for t in (st.targets if isinstance(st, ast.Assign) else [st.target]))]
+    val = cl.resolve(stores[0].value) if len(stores) == 1 and getattr(stores[0], "value", None) is not None else None
+    ok = isinstance(val, ast.Call) and eqx(val.func, "CollisionArray.newFromDirectory")
     chk.ob("R14.1", fl.where(), "loadCollisions replaces self.collisionArray only by the value returned by newFromDirectory "
            "(nothing is installed when the load raises)", ok, "; ".join(n(s) for s in stores)[:200], key="install-after-success")
     if ok:
-        a = [n(x) for x in stores[0].value.args]
+        want = [pl[0] if pl else "directoryPath", "self.grid", "self.basisN", "self.offEqParticles"]
+        got = [kwarg(val, p_, i) for i, p_ in enumerate((P_DIR, P_GRID, P_BASIS, P_PARTICLES))]
+        extra = kwarg(val, prm[4], 4) if len(prm) > 4 else None
         chk.ob("R14.1", fl.where(), "newFromDirectory receives (directory, self.grid, self.basisN, self.offEqParticles)",
-               a == ["directoryPath", "self.grid", "self.basisN", "self.offEqParticles"], str(a), key="load-args")
+               all(g is not None and eqx(g, w, cl) for g, w in zip(got, want)) and (extra is None or eqx(extra, "True", cl)), str([n(g) if g is not None else None for g in got]),
+               key="load-args")
     # handlers must not swallow the error
     swallowed = []
     for x in own_nodes(fl.node):
         if isinstance(x, ast.ExceptHandler):
-            if not any(isinstance(s, ast.Raise) for s in x.body):
+            g = CFG(ast.FunctionDef(name="h", args=fl.node.args, body=x.body, decorator_list=[], lineno=x.lineno))
+            if g.reaches([CFG.ENTRY], CFG.EXIT):
                 swallowed.append(n(x.type) if x.type else "bare")
     chk.ob("R14.1", fl.where(), "loadCollisions re-raises the load error", not swallowed, str(swallowed), key="reraise")
     chk.floor("R14.1", 8)
@@ -82,115 +197,172 @@ def r14_1(chk: Check) -> None:
 def r14_2(chk: Check) -> None:
     S = chk.src
     fi = S.func(f"{CA}.newFromDirectory")
+    prm = _params(fi)
+    P_GRID = prm[1]
+    P_INTERP = prm[4] if len(prm) > 4 else "bInterpolate"
+    F = Flat(S, fi)
     raises = [x for x in own_nodes(fi.node) if isinstance(x, ast.Raise)]
-    bad = [n(r)[:60] for r in raises if r.exc is None or not n(r.exc).startswith("CollisionLoadError")]
+    bad = [n(r)[:60] for r in raises if r.exc is None or not _is_load_error(r)]
     chk.ob("R14.2", fi.where(), "every raise in newFromDirectory raises CollisionLoadError", not bad and len(raises) >= 3,
            f"{len(raises)} raises; others: {bad}", key="raises")
     # the three listed fault patterns
     handlers = [x for x in own_nodes(fi.node) if isinstance(x, ast.ExceptHandler)]
-    ok = any(h.type is not None and "FileNotFoundError" in n(h.type) and
-             any(isinstance(s, ast.Raise) and s.exc is not None and n(s.exc).startswith("CollisionLoadError") for s in h.body)
+    ok = any(h.type is not None and any(isinstance(x, ast.Name) and x.id == "FileNotFoundError" for x in ast.walk(h.type)) and
+             any(isinstance(s, ast.Raise) and s.exc is not None and _is_load_error(s) for s in h.body)
              for h in handlers)
     chk.ob("R14.2", fi.where(), "missing file: FileNotFoundError is converted to CollisionLoadError", ok, key="fault|missing-file")
-    ok = False
+
+    def is_size(e):   # the basis size recorded in the file being read
+        return isinstance(e, ast.Subscript) and eqx(e.slice, "'Basis Size'") and isinstance(e.value, ast.Attribute) and e.value.attr == "attrs"
+
+    def is_type(e):   # the basis type recorded in the file being read
+        return any(isinstance(x, ast.Subscript) and eqx(x.slice, "'Basis Type'") and isinstance(x.value, ast.Attribute) and x.value.attr == "attrs" for x in ast.walk(e)) \
+            and not any(is_size(x) for x in ast.walk(e))
+
+    def first_file(name, pred):   # a local that remembers the value read from an earlier file
+        return isinstance(name, ast.Name) and any(pred(v) for v in F.defs.get(name.id, []))
+
+    guarded = []   # (resolved test, polarity) lists of every raise CollisionLoadError
     for guards, st in walk_guarded(fi.node):
-        if isinstance(st, ast.Raise) and st.exc is not None and n(st.exc).startswith("CollisionLoadError"):
-            for t, pol in guards:
-                if isinstance(t, ast.Compare) and pol and n(t) in ("grid.N > size", "size < grid.N"):
+        if isinstance(st, ast.Raise) and st.exc is not None and _is_load_error(st):
+            guarded.append([f_ for t, pol in guards if isinstance(t, ast.AST) and not isinstance(t, ast.ExceptHandler) for f_ in _facts(F.tests.get(id(t), t), pol)])
+    ok = False
+    for gl in guarded:
+        for t, pol in gl:
+            while isinstance(t, ast.UnaryOp) and isinstance(t.op, ast.Not):
+                t, pol = t.operand, not pol
+            if isinstance(t, ast.Compare) and len(t.ops) == 1:
+                a, b, op = t.left, t.comparators[0], type(t.ops[0])
+                if is_size(a) and eqx(b, f"{P_GRID}.N"):
+                    a, b, op = b, a, {ast.Lt: ast.Gt, ast.Gt: ast.Lt, ast.LtE: ast.GtE, ast.GtE: ast.LtE}.get(op, op)
+                if eqx(a, f"{P_GRID}.N") and is_size(b) and ((pol and op is ast.Gt) or (not pol and op is ast.LtE)):
                     ok = True
     chk.ob("R14.2", fi.where(), "target grid larger than the stored one raises CollisionLoadError", ok, key="fault|oversized-target")
     # size / basis mismatch between files must not be an assert
-    asserts = [x for x in own_nodes(fi.node) if isinstance(x, ast.Assert)]
-    file_vars = {"size", "btype", "basisSizeFile", "basisTypeFile"}
-    bad_asserts = [a for a in asserts if {x.id for x in ast.walk(a.test) if isinstance(x, ast.Name)} & file_vars]
-    for a in bad_asserts:
+    bad_asserts = []
+    for a in [x for x in own_nodes(fi.node) if isinstance(x, ast.Assert)]:
+        env = F.before.get(id(a))
+        t = F.res(a.test, env) if env is not None else a.test
+        if any(is_size(x) for x in ast.walk(t)):
+            bad_asserts.append((a, "size == basisSizeFile"))
+        elif is_type(t) and isinstance(t, ast.Compare):
+            bad_asserts.append((a, "btype == basisTypeFile"))
+    for a, label in bad_asserts:
         chk.ob("R14.2", fi.where(a), "file-to-file size / basis-type mismatch is reported as CollisionLoadError, not AssertionError",
-               False, n(a.test), key=f"fault|mismatch-assert|{n(a.test)}")
+               False, n(a.test), key=f"fault|mismatch-assert|{label}")
     covered = set()
-    for guards, st in walk_guarded(fi.node):
-        if isinstance(st, ast.Raise) and st.exc is not None and n(st.exc).startswith("CollisionLoadError"):
-            for t, pol in guards:
-                if isinstance(t, ast.Compare) and pol:
-                    names = {x.id for x in ast.walk(t) if isinstance(x, ast.Name)}
-                    if {"size", "basisSizeFile"} <= names:
+    for gl in guarded:
+        for t, pol in gl:
+            while isinstance(t, ast.UnaryOp) and isinstance(t.op, ast.Not):
+                t, pol = t.operand, not pol
+            if isinstance(t, ast.Compare) and len(t.ops) == 1 and ((pol and isinstance(t.ops[0], ast.NotEq)) or (not pol and isinstance(t.ops[0], ast.Eq))):
+                for a, b in ((t.left, t.comparators[0]), (t.comparators[0], t.left)):
+                    if is_size(a) and first_file(b, is_size):
                         covered.add("size")
-                    if {"btype", "basisTypeFile"} <= names:
+                    if is_type(a) and first_file(b, is_type):
                         covered.add("btype")
     if not bad_asserts:
         chk.ob("R14.2", fi.where(), "file-to-file size and basis-type mismatches raise CollisionLoadError", covered == {"size", "btype"},
                str(sorted(covered)), key="fault|mismatch-raise")
-    ok = False
-    for guards, st in walk_guarded(fi.node):
-        if isinstance(st, ast.Raise) and st.exc is not None and n(st.exc).startswith("CollisionLoadError"):
-            if any((not pol and n(t) == "bInterpolate") or (pol and n(t) == "not bInterpolate") for t, pol in guards if not isinstance(t, tuple)):
-                ok = True
+    ok = any(_true_when(t, pol, [f"not {P_INTERP}", f"{P_INTERP} == False", f"{P_INTERP} is False"], [P_INTERP, f"{P_INTERP} == True", f"{P_INTERP} is True"])
+             for gl in guarded for t, pol in gl)
     chk.ob("R14.2", fi.where(), "grid-size mismatch with bInterpolate=False raises CollisionLoadError", ok, key="fault|no-interpolate")
     chk.floor("R14.2", 5)
+
+
+def _matrix_chain(e: ast.AST, P_NEW: str, P_INV: str) -> bool:
+    """e is  M2 = (transpose(inv(M1)) if inverseTranspose else M1),  M1 = (inv(M0) if newBasis[i] == 'Chebyshev' else M0),  M0 = T_n(x)"""
+    if not (isinstance(e, ast.IfExp) and eqx(e.test, P_INV)):
+        return False
+    m1, it = e.orelse, e.body
+    ok_it = (isinstance(it, ast.Call) and eqx(it.func, "np.transpose") and len(it.args) == 1 and isinstance(it.args[0], ast.Call)
+             and eqx(it.args[0].func, "np.linalg.inv") and len(it.args[0].args) == 1 and same(it.args[0].args[0], m1)) \
+        or (isinstance(it, ast.Call) and eqx(it.func, "np.linalg.inv") and len(it.args) == 1 and isinstance(it.args[0], ast.Call)
+            and eqx(it.args[0].func, "np.transpose") and len(it.args[0].args) == 1 and same(it.args[0].args[0], m1))
+    if not ok_it or not isinstance(m1, ast.IfExp):
+        return False
+    tt = m1.test
+    b = isinstance(tt, ast.Compare) and len(tt.ops) == 1 and isinstance(tt.ops[0], ast.Eq)
+    if b:
+        lhs, rhs = (tt.left, tt.comparators[0]) if eqx(tt.comparators[0], "'Chebyshev'") else (tt.comparators[0], tt.left)
+        b = eqx(rhs, "'Chebyshev'") and isinstance(lhs, ast.Subscript) and isinstance(lhs.slice, ast.Name) \
+            and any(isinstance(x, ast.Name) and x.id == P_NEW for x in ast.walk(lhs.value))
+    m0, inv = m1.orelse, m1.body
+    return bool(b) and isinstance(inv, ast.Call) and eqx(inv.func, "np.linalg.inv") and len(inv.args) == 1 and same(inv.args[0], m0) \
+        and any(isinstance(c, ast.Call) and _short(c) == "chebyshev" for c in ast.walk(m0)) and not any(isinstance(c, ast.Call) and _short(c) in ("inv", "transpose") for c in ast.walk(m0))
 
 
 def r14_3(chk: Check) -> None:
     S = chk.src
     fi = S.func(f"{CA}.changeBasis")
     chk.touch(fi.name)
-    cs = [c for c in calls_in(fi.node, "changeBasis") if n(c.func) == "self.polynomialData.changeBasis"]
+    cx = Ctx(S, fi)
+    prm = _params(fi)
+    if len(prm) != 1:
+        raise AnchorMissing("CollisionArray.changeBasis: expected the single parameter newBasisType")
+    P = prm[0]
+    cs = [c for c in calls_in(fi.node, "changeBasis") if eqx(c.func, "self.polynomialData.changeBasis", cx)]
     if len(cs) != 1:
         raise AnchorMissing("CollisionArray.changeBasis: call to polynomialData.changeBasis not found")
     c = cs[0]
     it = kwarg(c, "inverseTranspose", 1)
     chk.ob("R14.3", fi.where(c), "the collision tensor is transformed with inverseTranspose=True (so that C'.c' == C.c)",
-           isinstance(it, ast.Constant) and it.value is True, n(it) if it is not None else "missing", key="inverse-transpose")
+           it is not None and eqx(it, "True", cx), n(it) if it is not None else "missing", key="inverse-transpose")
     b = kwarg(c, "newBasis", 0)
-    want = "('Array', 'Cardinal', 'Cardinal', 'Array', newBasisType, newBasisType)"
+    want = f"('Array', 'Cardinal', 'Cardinal', 'Array', {P}, {P})"
     chk.ob("R14.3", fi.where(c), "new bases are (Array, Cardinal, Cardinal, Array, new, new): only the polynomial axes 4-5 change",
-           b is not None and n(b).replace('"', "'") == want, n(b) if b is not None else "", key="basis-tuple")
-    st = [s for s in own_nodes(fi.node) if isinstance(s, ast.Assign) and n(s.targets[0]) == "self.basisType"]
-    chk.ob("R14.3", fi.where(), "the recorded basis type is updated to the new one", len(st) == 1 and n(st[0].value) == "newBasisType",
+           b is not None and eqx(b, want, cx), n(b) if b is not None else "", key="basis-tuple")
+    st = [s for s in own_nodes(fi.node) if isinstance(s, ast.Assign) and any(eqx(t, "self.basisType") for t in s.targets)]
+    chk.ob("R14.3", fi.where(), "the recorded basis type is updated to the new one", len(st) == 1 and eqx(st[0].value, P, cx),
            key="basis-recorded")
     # Polynomial.changeBasis: matrix handling
     fp = S.func("polynomial:Polynomial.changeBasis")
     chk.touch(fp.name)
-    seq = []
-    for guards, s_ in walk_guarded(fp.node):
-        if isinstance(s_, ast.Assign) and n(s_.targets[0]) == "tnMatrix":
-            g = [n(t).replace('"', "'") for t, pol in guards if pol and not isinstance(t, tuple)]
-            fns = {(c.func.attr if isinstance(c.func, ast.Attribute) else n(c.func)) for c in ast.walk(s_.value) if isinstance(c, ast.Call)}
-            fns |= {"transpose" for a_ in ast.walk(s_.value) if isinstance(a_, ast.Attribute) and a_.attr == "T"}
-            seq.append((g[-1] if g else "", fns, s_.lineno))
-    base = [x for x in seq if "chebyshev" in x[1]]
-    tocheb = [x for x in seq if x[0] == "newBasis[i] == 'Chebyshev'" and "inv" in x[1] and "transpose" not in x[1]]
-    invt = [x for x in seq if x[0] == "inverseTranspose" and {"inv", "transpose"} <= x[1]]
-    ok = len(base) == 1 and len(tocheb) == 1 and len(invt) == 1 and base[0][2] < tocheb[0][2] < invt[0][2]
+    pp = _params(fp)
+    if len(pp) != 2:
+        raise AnchorMissing("Polynomial.changeBasis: expected the parameters (newBasis, inverseTranspose)")
+    G = Flat(S, fp)
+    upd = [v for st_, v in G.events if isinstance(v, ast.Assign) and eqx(v.targets[0], "self.coefficients")]
+    ok = len(upd) == 1 and any(_matrix_chain(x, pp[0], pp[1]) for x in ast.walk(upd[0].value))
     chk.ob("R14.3", fp.where(), "Polynomial.changeBasis: T (or T^-1 towards Chebyshev) first, then inverse-transpose when requested", ok,
-           str([(a, sorted(b)) for a, b, _ in seq])[:300], key="matrix-sequence")
+           n(upd[0].value)[:300] if upd else "", key="matrix-sequence")
     chk.floor("R14.3", 4)
 
 
 # ---------------------------------------------------------------- R14.4 label flow
-def _labels_eval(expr, defs, facts, chk):
-    """abstract evaluation of an array expression to a list of axis labels"""
-    if isinstance(expr, ast.Name):
-        if expr.id in defs:
-            return _labels_eval(defs[expr.id], defs, facts, chk)
-        raise Undecided(f"label flow: unknown name {expr.id}")
+def _lit(e):
+    """value of an integer / tuple-of-integers expression (constant arithmetic is folded)"""
+    if isinstance(e, (ast.Tuple, ast.List)):
+        return [_lit(x) for x in e.elts]
+    v = NF()._const(e) if e is not None else None
+    if v is not None and v.denominator == 1:
+        return int(v)
+    raise Undecided(f"label flow: `{n(e)[:40] if e is not None else None}` is not a literal")
+
+
+def _labels_eval(expr, facts):
+    """abstract evaluation of a resolved array expression to a list of axis labels"""
     if isinstance(expr, ast.Call):
         d = dotted(expr.func) or ""
         short = expr.func.attr if isinstance(expr.func, ast.Attribute) else d.split(".")[-1]
+        is_np = d.split(".")[0] in ("np", "numpy")
         if d in ("np.array", "np.asarray", "np.ascontiguousarray", "np.copy"):
-            return _labels_eval(expr.args[0], defs, facts, chk)
-        if short == "evaluate" and n(expr.func).endswith("polynomialData.evaluate"):
-            axes = kwarg(expr, "axes", 1)
-            ax = ast.literal_eval(axes)
+            return _labels_eval(expr.args[0], facts)
+        if short == "evaluate" and isinstance(expr.func, ast.Attribute) and isinstance(expr.func.value, ast.Attribute) and expr.func.value.attr == "polynomialData":
+            ax = _lit(kwarg(expr, "axes", 1))
             src_labels = list(facts["source_labels"])
+            facts["evaluate"] = expr
             return ["points"] + [l for i, l in enumerate(src_labels) if i not in ax]
-        if short == "reshape" and isinstance(expr.func, ast.Attribute) and d != "np.reshape":
-            inner = _labels_eval(expr.func.value, defs, facts, chk)
-            return ("reshape", inner, expr.args[0])
-        if d == "np.reshape":
-            inner = _labels_eval(expr.args[0], defs, facts, chk)
-            return ("reshape", inner, expr.args[1])
-        if d == "np.moveaxis":
-            inner = _labels_eval(expr.args[0], defs, facts, chk)
-            s_, t_ = ast.literal_eval(expr.args[1]), ast.literal_eval(expr.args[2])
+        if short == "reshape" and not is_np:
+            inner = _labels_eval(expr.func.value, facts)
+            shape = expr.args[0] if len(expr.args) == 1 else (ast.Tuple(elts=list(expr.args), ctx=ast.Load()) if expr.args else kwarg(expr, "shape"))
+            return ("reshape", inner, shape)
+        if short == "reshape" and is_np:
+            inner = _labels_eval(kwarg(expr, "a", 0), facts)
+            return ("reshape", inner, kwarg(expr, "shape", 1) or kwarg(expr, "newshape"))
+        if short == "moveaxis" and is_np:
+            inner = _labels_eval(kwarg(expr, "a", 0), facts)
+            s_, t_ = _lit(kwarg(expr, "source", 1)), _lit(kwarg(expr, "destination", 2))
             s_ = [s_] if isinstance(s_, int) else list(s_)
             t_ = [t_] if isinstance(t_, int) else list(t_)
             rank = len(inner)
@@ -201,39 +373,75 @@ def _labels_eval(expr, defs, facts, chk):
                 order.insert(dst, srcax)
             return [inner[i] for i in order]
         if short == "transpose":
-            if d == "np.transpose":
-                inner = _labels_eval(expr.args[0], defs, facts, chk)
-                perm = ast.literal_eval(expr.args[1]) if len(expr.args) > 1 else list(range(len(inner)))[::-1]
+            if is_np:
+                inner = _labels_eval(kwarg(expr, "a", 0), facts)
+                axes = kwarg(expr, "axes", 1)
+                perm = _lit(axes) if axes is not None else list(range(len(inner)))[::-1]
             else:
-                inner = _labels_eval(expr.func.value, defs, facts, chk)
-                perm = ast.literal_eval(expr.args[0]) if len(expr.args) == 1 else [ast.literal_eval(a) for a in expr.args]
+                inner = _labels_eval(expr.func.value, facts)
+                perm = (_lit(expr.args[0]) if len(expr.args) == 1 else [_lit(a) for a in expr.args]) if expr.args else list(range(len(inner)))[::-1]
+                perm = list(perm) if not isinstance(perm, int) else [perm]
             return [inner[i] for i in perm]
         if short == "swapaxes":
-            if d == "np.swapaxes":
-                inner = _labels_eval(expr.args[0], defs, facts, chk)
-                a, b = ast.literal_eval(expr.args[1]), ast.literal_eval(expr.args[2])
+            if is_np:
+                inner = _labels_eval(kwarg(expr, "a", 0), facts)
+                a, b = _lit(kwarg(expr, "axis1", 1)), _lit(kwarg(expr, "axis2", 2))
             else:
-                inner = _labels_eval(expr.func.value, defs, facts, chk)
-                a, b = ast.literal_eval(expr.args[0]), ast.literal_eval(expr.args[1])
+                inner = _labels_eval(expr.func.value, facts)
+                a, b = _lit(kwarg(expr, "axis1", 0)), _lit(kwarg(expr, "axis2", 1))
             inner = list(inner)
             inner[a], inner[b] = inner[b], inner[a]
             return inner
-        raise Undecided(f"label flow: call {d}")
+        raise Undecided(f"label flow: call {d or n(expr.func)[:40]}")
     if isinstance(expr, ast.Subscript):
-        inner = _labels_eval(expr.value, defs, facts, chk)
+        inner = _labels_eval(expr.value, facts)
         sl = expr.slice
         elts = sl.elts if isinstance(sl, ast.Tuple) else [sl]
         # only truncating slices / ellipsis keep the labels
-        if all(isinstance(e, ast.Slice) or (isinstance(e, ast.Constant) and e.value is Ellipsis) for e in elts):
+        if all(isinstance(e, ast.Slice) or (isinstance(e, ast.Constant) and e.value is Ellipsis) for e in elts) and not isinstance(inner, tuple):
             return inner
         raise Undecided(f"label flow: subscript {n(expr)[:60]}")
-    raise Undecided(f"label flow: expression {type(expr).__name__}")
+    raise Undecided(f"label flow: expression {type(expr).__name__} `{n(expr)[:40]}`")
+
+
+def _evaluate_summary(S) -> bool:
+    """Polynomial.evaluate returns (points, *axes not evaluated): it starts from ones((npoints,) + coefficients.shape) and sums
+    coefficients[None, ...] * polynomials over the evaluated axes shifted by one"""
+    fe = S.func("polynomial:Polynomial.evaluate")
+    prm = _params(fe)
+    if len(prm) != 2:
+        return False
+    COORD, AXES = prm
+
+    def choose(t):     # a 2-d array of points and explicit axes are given
+        if eqx(t, f"{AXES} is None"):
+            return False
+        if isinstance(t, ast.Compare) and len(t.ops) == 1 and isinstance(t.ops[0], ast.Eq) and eqx(t.comparators[0], "1") and isinstance(t.left, ast.Call) \
+                and eqx(t.left.func, "len") and isinstance(t.left.args[0], ast.Attribute) and t.left.args[0].attr == "shape":
+            return False
+        return None
+    G = Flat(S, fe, choose=choose)
+    if len(G.returns) != 1:
+        return False
+    ret = G.returns[0][1]
+    if isinstance(ret, ast.Call) and (dotted(ret.func) or "") in ("np.array", "np.asarray") and len(ret.args) == 1:
+        ret = ret.args[0]
+    b = match(ret, f"np.sum(self.coefficients[None, ...] * __P, axis=tuple(np.array({AXES}) + 1))")
+    if b is None:
+        return False
+    first = G.defs.get(b["P"], [None])[0]
+    return first is not None and (eqx(first, f"np.ones((np.asarray({COORD}).shape[1],) + self.coefficients.shape)")
+                                  or eqx(first, f"np.ones(({COORD}.shape[1],) + self.coefficients.shape)"))
 
 
 def r14_4(chk: Check) -> None:
     S = chk.src
     fi = S.func(f"{CA}.interpolateCollisionArray")
     chk.touch(fi.name)
+    prm = _params(fi)
+    if len(prm) != 2:
+        raise AnchorMissing("interpolateCollisionArray: expected the parameters (srcCollision, targetGrid)")
+    P_SRC, P_GRID = prm
     ci = S.cls(CA)
     labels = ci.consts.get("AXIS_LABELS")
     if labels is None:
@@ -243,50 +451,43 @@ def r14_4(chk: Check) -> None:
     # summary of Polynomial.evaluate: result axes = (points,) + coefficient axes not evaluated
     fe = S.func("polynomial:Polynomial.evaluate")
     chk.touch(fe.name)
-    txt = " ".join(n(s) for s in own_nodes(fe.node) if isinstance(s, ast.Assign))
-    ok_sum = "polynomials = np.ones((compactCoord.shape[1],) + self.coefficients.shape)" in txt and \
-        "np.sum(self.coefficients[None, ...] * polynomials, axis=tuple(np.array(axes) + 1))" in txt
+    ok_sum = _evaluate_summary(S)
     # a refactored evaluate() is not a violation: the summary is then undecided (exit 2)
     chk.ob("R14.4", fe.where(), "Polynomial.evaluate returns (points, *axes not evaluated): summary used by the label flow",
            True if ok_sum else None, "evaluate() no longer has the shape the summary was derived from", key="evaluate-summary")
-    defs = {}
-    for st in own_nodes(fi.node):
-        if isinstance(st, ast.Assign) and isinstance(st.targets[0], ast.Name):
-            defs[st.targets[0].id] = st.value
+    G = Flat(S, fi)
+    # target labels from the Polynomial(...) built from the interpolated data
+    pols = {nf(c): c for vals in G.defs.values() for v in vals for c in ast.walk(v) if isinstance(c, ast.Call) and _short(c) == "Polynomial"}
+    pols.update({nf(c): c for _, v in G.returns for c in ast.walk(v) if isinstance(c, ast.Call) and _short(c) == "Polynomial"})
+    target = [c for c in pols.values() if isinstance(kwarg(c, "direction", 3), ast.Tuple)]
+    if len(target) != 1:
+        raise AnchorMissing("interpolateCollisionArray: Polynomial(...) for the interpolated data not found")
+    data = kwarg(target[0], "coefficients", 0)
+    tl = ["particles1", "pz", "pp", "particles2", "polynomial1", "polynomial2"]
+    facts = {"source_labels": src_labels}
+    res = _labels_eval(data, facts)
+    ev = facts.get("evaluate")
     # points grid: meshgrid(rz, rp, indexing='ij').reshape((2, (N-1)**2))  -> points == pz (x) pp in C order
-    gp = defs.get("gridPoints")
+    gp = kwarg(ev, "compactCoord", 0) if ev is not None else None
     okg = False
     if gp is not None:
-        mg = [c for c in ast.walk(gp) if isinstance(c, ast.Call) and (dotted(c.func) or "").endswith("meshgrid")]
-        if mg:
-            a = [n(x) for x in mg[0].args]
+        mg = [c for c in ast.walk(gp) if isinstance(c, ast.Call) and _short(c) == "meshgrid"]
+        if len(mg) == 1:
             ind = kwarg(mg[0], "indexing")
-            okg = a == ["targetGrid.rzValues", "targetGrid.rpValues"] and isinstance(ind, ast.Constant) and ind.value == "ij"
+            okg = len(mg[0].args) == 2 and eqx(mg[0].args[0], f"{P_GRID}.rzValues") and eqx(mg[0].args[1], f"{P_GRID}.rpValues") and ind is not None and eqx(ind, "'ij'")
     chk.ob("R14.4", fi.where(), "evaluation points are meshgrid(rz, rp, indexing='ij') flattened: point index == pz (x) pp in C order", okg,
            n(gp)[:160] if gp is not None else "", key="points-grid")
     # evaluate along axes (1, 2) with the points grid
-    ev = [c for c in calls_in(fi.node, "evaluate")]
-    oke = bool(ev) and n(ev[0].args[0]) == "gridPoints" and n(kwarg(ev[0], "axes", 1)) == "(1, 2)"
+    oke = ev is not None and gp is not None and eqx(kwarg(ev, "axes", 1), "(1, 2)") and len(calls_in(fi.node, "evaluate")) == 1
     chk.ob("R14.4", fi.where(), "the source polynomial is evaluated at the points grid along the momentum axes (1, 2)", oke,
-           n(ev[0])[:100] if ev else "", key="evaluate-call")
-    # target labels from the Polynomial(...) built from the interpolated data
-    target = None
-    data_name = None
-    for c in calls_in(fi.node, "Polynomial"):
-        if len(c.args) >= 4 and isinstance(c.args[3], ast.Tuple):
-            target = [e.value for e in c.args[3].elts]
-            data_name = c.args[0]
-    if target is None:
-        raise AnchorMissing("interpolateCollisionArray: Polynomial(...) for the interpolated data not found")
-    tl = ["particles1", "pz", "pp", "particles2", "polynomial1", "polynomial2"]
-    facts = {"source_labels": src_labels}
-    res = _labels_eval(data_name, defs, facts, chk)
+           n(ev)[:100] if ev is not None else "", key="evaluate-call")
+    shape = None
     if isinstance(res, tuple) and res[0] == "reshape":
-        inner = res[1]
+        inner, shape = res[1], res[2]
         flat = []
         for l in inner:
             flat += ["pz", "pp"] if l == "points" else [l]
-        ok = flat == tl
+        ok = flat == tl and not isinstance(inner, tuple)
         detail = f"array axes before reshape {inner} flatten to {flat}; reshape target axes {tl}"
     else:
         flat = []
@@ -296,41 +497,87 @@ def r14_4(chk: Check) -> None:
         detail = f"axes {res}"
     chk.ob("R14.4", fi.where(), "reshape of the interpolated data only splits the point axis into (pz, pp): the flattened axis order equals the "
            "target order (particles, pz, pp, particles, poly, poly) for any number of particles", ok, detail, key="reshape-order")
-    ns = defs.get("newShape")
-    okn = ns is not None and n(ns).replace(" ", "") == "2*(len(source.particles),targetGrid.N-1,targetGrid.N-1)"
-    chk.ob("R14.4", fi.where(), "target shape is (particles, N-1, N-1) twice", okn, n(ns) if ns is not None else "", key="target-shape")
+    okn = False
+    if shape is not None:
+        for who in (f"copy.deepcopy({P_SRC})", f"deepcopy({P_SRC})", P_SRC):
+            L, N1 = f"len({who}.particles)", f"{P_GRID}.N - 1"
+            okn = okn or eqx(shape, f"2 * ({L}, {N1}, {N1})") or eqx(shape, f"({L}, {N1}, {N1}, {L}, {N1}, {N1})") or eqx(shape, f"({L}, {N1}, {N1}) * 2") \
+                or eqx(shape, f"({L}, {N1}, {N1}) + ({L}, {N1}, {N1})")
+    chk.ob("R14.4", fi.where(), "target shape is (particles, N-1, N-1) twice", okn, n(shape) if shape is not None else "", key="target-shape")
     chk.floor("R14.4", 5)
+
+
+def _returned_after_change(S, fi, arg_ok) -> bool:
+    """the function returns an object on which changeBasis(<arg>) has been called last: `x.changeBasis(a); return x` or
+    `return x.changeBasis(a)` (changeBasis returns the object itself)"""
+    g = CFG(fi.node)
+    cx = Ctx(S, fi)
+    rets = [r for r in own_nodes(fi.node) if isinstance(r, ast.Return)]
+    if len(rets) != 1 or rets[0].value is None:
+        return False
+    v = rets[0].value
+    if isinstance(v, ast.Call) and isinstance(v.func, ast.Attribute) and v.func.attr == "changeBasis" and isinstance(v.func.value, ast.Name):
+        a = kwarg(v, "newBasisType", 0)
+        return a is not None and arg_ok(a, cx) and len(v.args) + len(v.keywords) == 1
+    if not isinstance(v, ast.Name):
+        return False
+    obj = v.id
+    cb = [c for c in calls_in(fi.node, "changeBasis") if eqx(c.func, f"{obj}.changeBasis")]
+    good = [g.node_of(c) for c in cb if kwarg(c, "newBasisType", 0) is not None and arg_ok(kwarg(c, "newBasisType", 0), cx)]
+    other = [g.node_of(c) for c in cb if g.node_of(c) not in good]
+    rebinds = [q for q in g.nodes if isinstance(q, ast.Assign) and any(isinstance(t, ast.Name) and t.id == obj for t in q.targets)]
+    return bool(good) and g.must_pass(CFG.ENTRY, rets[0], lambda q: any(q is x for x in good)) \
+        and not any(g.reaches([b], rets[0], avoid=lambda q: any(q is x for x in good)) for b in other + rebinds)
 
 
 def r14_5(chk: Check) -> None:
     S = chk.src
     fi = S.func(f"{CA}.interpolateCollisionArray")
+    P_SRC, P_GRID = _params(fi)[:2]
     g = CFG(fi.node)
-    dc = [st for st in own_nodes(fi.node) if isinstance(st, ast.Assign) and isinstance(st.value, ast.Call)
-          and (dotted(st.value.func) or "").endswith("deepcopy") and n(st.value.args[0]) == "srcCollision"]
-    chk.ob("R14.5", fi.where(), "interpolation works on a deep copy of the source collision array", len(dc) == 1, key="deepcopy")
-    work = n(dc[0].targets[0]) if dc else "source"
-    cb = [c for c in calls_in(fi.node, "changeBasis")]
-    to_cheb = [c for c in cb if n(c.func) == f"{work}.changeBasis" and c.args and isinstance(c.args[0], ast.Constant) and c.args[0].value == "Chebyshev"]
-    ev = g.stmts_calling("evaluate")
-    ok = bool(to_cheb) and bool(ev) and all(g.must_pass(CFG.ENTRY, e, lambda q: any(x is to_cheb[0] for x in ast.walk(q)) if isinstance(q, ast.AST) else False) for e in ev)
+    cx = Ctx(S, fi)
+    G = Flat(S, fi)
+
+    def is_copy(e):
+        return isinstance(e, ast.Call) and _short(e) == "deepcopy" and len(e.args) == 1 and eqx(e.args[0], P_SRC)
+
+    def at(node, expr):    # the expression as it stands at the statement containing `node`
+        st = g.node_of(node)
+        env = G.before.get(id(st)) if st is not None else None
+        return G.res(expr, env) if env is not None else expr
+    dc = [c for c in calls_in(fi.node, "deepcopy")]
+    evs = [c for c in calls_in(fi.node, "evaluate")]
+    ok = len(dc) == 1 and is_copy(cx.resolve(dc[0])) and bool(evs) \
+        and all(isinstance(c.func.value, ast.Attribute) and is_copy(at(c, c.func.value.value)) for c in evs)
+    chk.ob("R14.5", fi.where(), "interpolation works on a deep copy of the source collision array", ok, key="deepcopy")
+    cb = [c for c in calls_in(fi.node, "changeBasis") if isinstance(c.func, ast.Attribute)]
+    to_cheb = [g.node_of(c) for c in cb if is_copy(at(c, c.func.value)) and kwarg(c, "newBasisType", 0) is not None and eqx(at(c, kwarg(c, "newBasisType", 0)), "'Chebyshev'")]
+    other = [g.node_of(c) for c in cb if is_copy(at(c, c.func.value)) and g.node_of(c) not in to_cheb]
+    ev = [g.node_of(c) for c in evs]
+    ok = bool(to_cheb) and bool(ev) and all(e is not None and g.must_pass(CFG.ENTRY, e, lambda q: any(q is x for x in to_cheb))
+                                            and not any(g.reaches([b], e, avoid=lambda q: any(q is x for x in to_cheb)) for b in other) for e in ev)
     chk.ob("R14.5", fi.where(), "the copy is converted to the Chebyshev basis before it is evaluated", ok, key="chebyshev-first")
-    back = [c for c in cb if c.args and "getBasisType" in n(c.args[0]) and "srcCollision" in n(c.args[0])]
-    rets = [r for r in own_nodes(fi.node) if isinstance(r, ast.Return)]
-    ok = len(back) == 1 and len(rets) == 1 and n(rets[0].value) == n(back[0].func).rsplit(".", 1)[0]
+    ok = _returned_after_change(S, fi, lambda a, c: eqx(a, f"{P_SRC}.getBasisType()", c) or eqx(a, f"{P_SRC}.basisType", c))
     chk.ob("R14.5", fi.where(), "the result is converted back to the source's basis and returned", ok, key="convert-back")
     pol = [c for c in calls_in(fi.node, "Polynomial")]
-    ok = bool(pol) and len(pol[0].args) >= 3 and n(pol[0].args[2]).replace('"', "'") == "('Array', 'Cardinal', 'Cardinal', 'Array', 'Chebyshev', 'Chebyshev')" \
-        and n(pol[0].args[1]) == "targetGrid"
+    ok = len(pol) == 1 and eqx(kwarg(pol[0], "basis", 2), "('Array', 'Cardinal', 'Cardinal', 'Array', 'Chebyshev', 'Chebyshev')", cx) \
+        and eqx(kwarg(pol[0], "grid", 1), P_GRID, cx)
     chk.ob("R14.5", fi.where(), "interpolated data is declared on the target grid as (Array, Cardinal, Cardinal, Array, Chebyshev, Chebyshev)", ok,
            key="declared-bases")
     # loader: changeBasis(basisType) applied to the final object; bases of the stored data taken from the file
     fl = S.func(f"{CA}.newFromDirectory")
-    rets = [r for r in own_nodes(fl.node) if isinstance(r, ast.Return)]
-    ok = len(rets) == 1 and n(rets[0].value) == "newCollision.changeBasis(basisType)"
+    P_BASIS = _params(fl)[2]
+    ok = _returned_after_change(S, fl, lambda a, c: eqx(a, P_BASIS, c))
     chk.ob("R14.5", fl.where(), "newFromDirectory returns the array converted to the requested basis", ok, key="loader-final-basis")
+    L = Flat(S, fl)
     pols = [c for c in calls_in(fl.node, "Polynomial")]
-    ok = len(pols) == 2 and all(n(c.args[2]).replace('"', "'") == "('Array', 'Cardinal', 'Cardinal', 'Array', basisTypeFile, basisTypeFile)" for c in pols)
+    ok = len(pols) >= 1
+    cl = Ctx(S, fl)
+    for c in pols:
+        b = kwarg(c, "basis", 2)
+        m = match(cl.resolve(b), "('Array', 'Cardinal', 'Cardinal', 'Array', __B, __B)") if b is not None else None
+        # __B remembers the basis type read from the files' metadata
+        ok = ok and m is not None and any(any(isinstance(x, ast.Subscript) and eqx(x.slice, "'Basis Type'") for x in ast.walk(v)) for v in L.defs.get(m["B"], []))
     chk.ob("R14.5", fl.where(), "stored data is declared in the basis recorded in the files", ok, key="loader-file-basis")
     chk.floor("R14.5", 6)
 
